@@ -22,6 +22,7 @@ pub mod h_attack;
 pub mod h_filter;
 pub mod h_k;
 pub mod h_push;
+pub mod h_search;
 pub mod h_text;
 pub mod h_unit;
 
